@@ -2,15 +2,31 @@
 """write /verif/seeded/INDEX.md from the meta.json files"""
 import json, os, glob
 S = os.path.join(os.path.dirname(os.path.dirname(os.path.abspath(__file__))), "seeded")
+import re
 rows = []
 for d in sorted(glob.glob(os.path.join(S, "*", "meta.json"))):
     m = json.load(open(d))
+    # what the checks actually reported against this seed (from the logs of the runs)
+    tags, rcs = [], []
+    for lg in sorted(glob.glob(os.path.join(os.path.dirname(d), "check*.log"))):
+        txt = open(lg, errors="replace").read()
+        for mm in re.finditer(r"failed obligation: harness=(\S+) \S+ \[([^\]]+)\]", txt):
+            t = "%s:%s" % (mm.group(1), mm.group(2))
+            if t not in tags:
+                tags.append(t)
+        for mm in re.finditer(r"VIOLATION property=(C\d+) replay=\S*/(C\d+-extra-[^ ]+?)-[0-9a-f]{8}\.json", txt):
+            t = mm.group(2)
+            if t not in tags:
+                tags.append(t)
+        n_v = len(re.findall(r"^VIOLATION", txt, flags=re.M))
+        rcs.append("%s: %d VIOLATION line(s)%s" % (os.path.basename(lg)[6:-4], n_v, ", UNDECIDED" if "UNDECIDED" in txt and n_v == 0 else ""))
+    m["reported"] = "; ".join(rcs) + (" — failing obligations: " + ", ".join(tags[:6]) if tags else "")
     rows.append((os.path.basename(os.path.dirname(d)), m))
 with open(os.path.join(S, "INDEX.md"), "w") as f:
     f.write("# Seeded changes\n\nEach directory holds `patch.diff` (applies to /repo HEAD), the demonstration (`demo.c`, `run.sh`; for reverts the fix\n"
             "commit itself), `meta.json` and the log of the check run against it.  None of these changes is committed to /repo.\n\n")
-    f.write("| seed | property | change | needs, to manifest | caught by |\n|---|---|---|---|---|\n")
+    f.write("| seed | property | change | needs, to manifest | caught by (as recorded when the seed was filed) | last check run against it |\n|---|---|---|---|---|---|\n")
     for n, m in rows:
         f.write("| %s | %s | %s | %s | %s |\n" % (n, m.get("property"), m.get("change", "").replace("|", "/"), m.get("needs", "").replace("|", "/"),
-                                                 m.get("detected_by", "").replace("|", "/")))
+                                                 m.get("detected_by", "").replace("|", "/") + " | " + m.get("reported", "").replace("|", "/")))
 print(len(rows), "seeds")
